@@ -14,10 +14,10 @@ from rules.simloop import SimLoop, SIMULATE
 from rules.wiring import wiring_rules
 
 UNDECIDED = [
-    "that calc_output of Xor / Compare (hysteresis arithmetic) / Override / user FuncBlock "
-    "functions computes the documented value function -- value level; decided only for Not "
-    "(truthiness table), And/Or (function table), FuncBlock's unpack switch and the agreement of "
-    "declared and read input names",
+    "that calc_output of Xor / Override / user FuncBlock functions computes the documented value "
+    "function -- value level; decided only for Not (truthiness table), And/Or (function table), "
+    "Compare (threshold selection table and comparator, not the arithmetic), FuncBlock's unpack "
+    "switch and the agreement of declared and read input names",
     "enumeration of circuits and event sequences -- the idle-consistency follows from the "
     "work-list invariants R01.1-R01.8, which are the necessary conditions decided here",
 ]
@@ -60,6 +60,10 @@ def run(ck):
                  "returns the stored blocks' outputs", 'M0', 5)
     R10 = ck.rule('R01.10', "library functions: Not negates its input (truthiness table); And/Or "
                   "apply all/any to the whole group; FuncBlock honours unpack", 'M0', 5)
+
+    R11 = ck.rule('R01.11', "Compare: the threshold is (low+high)/2 before the first output, "
+                  "`high` while the output is False and `low` while it is True (truthiness domain of "
+                  "the previous output, 3 cases); output = input >= threshold", 'truthiness domain', 5)
 
     sl = SimLoop(ck, R1)
     g, fi = sl.cfg, sl.fi
@@ -321,6 +325,43 @@ def run(ck):
             why = f"func={norm(f)}, unpack={norm(up) if up is not None else None}"
         ck.ob(R10, f"{q}", ok, f"{ci.name} = {fname}() over the whole input group ({why})" if ok
               else f"{ci.name} is not {fname}() over the unnamed group: {why}", ini, ini.node)
+    # Compare: threshold selection on the truthiness domain of the previous output
+    from sa.absval import UNDEF as _U
+    cmpf = prog.func('blocklib.cblocks:Compare.calc_output')
+    body = [st for st in cmpf.node.body if not (isinstance(st, ast.Expr) and isinstance(st.value, ast.Constant))]
+    ret = body[-1] if body and isinstance(body[-1], ast.Return) else None
+    ck.need(R11, ret is not None and isinstance(ret.value, ast.Compare) and len(ret.value.ops) == 1,
+            "Compare.calc_output: final `return <input> <op> <threshold>` not recognised")
+    thr_name = norm(ret.value.comparators[0])
+    LOW, HIGH, MID = object(), object(), object()
+    for prev, want, label in ((_U, MID, 'UNDEF (start-up)'), (0, HIGH, 'False'), (1, LOW, 'True')):
+        env = {'self._output': prev, 'block.UNDEF': _U, 'UNDEF': _U, 'self._low': LOW, 'self._high': HIGH,
+               '(self._low + self._high) / 2': MID, '(self._high + self._low) / 2': MID}
+        it = Interp(R11, env, 'truthiness')
+        it.run(body[:-1])
+        got = it.env.get(thr_name)
+        ck.abstract_cases += 1
+        names = {id(LOW): 'low', id(HIGH): 'high', id(MID): '(low+high)/2'}
+        ck.ob(R11, f"{cmpf.fid} :: previous output {label}", got is want,
+              f"threshold = {names.get(id(got), got)}; documented: {names[id(want)]} (hysteresis: a "
+              f"False output needs the input to reach `high`, a True output stays until it drops "
+              f"below `low`)", cmpf, cmpf.node)
+    okc = isinstance(ret.value.ops[0], ast.GtE) and norm(ret.value.left) in ("self._in['_'][0]", "self._in._[0]")
+    ck.ob(R11, f"{cmpf.fid} :: comparison", okc,
+          "output = input >= threshold (True when the input reaches the threshold)" if okc else
+          f"`{norm(ret.value)}` is not `input >= threshold`", cmpf, ret)
+    cin = prog.func('blocklib.cblocks:Compare.__init__')
+    gci = ck.cfg(cin.fid, 'M0')
+    okr = any(isinstance(n.ast, ast.Raise) and (gci.has_guard(n, 'high < low', True) or
+                                                gci.has_guard(n, 'low > high', True))
+              for n in gci.nodes if n.kind == 'stmt') and \
+        any(isinstance(n.ast, ast.Assign) and norm(n.ast.targets[0]) == 'self._low' and norm(n.ast.value) == 'low'
+            for n in gci.nodes if n.kind == 'stmt') and \
+        any(isinstance(n.ast, ast.Assign) and norm(n.ast.targets[0]) == 'self._high' and norm(n.ast.value) == 'high'
+            for n in gci.nodes if n.kind == 'stmt')
+    ck.ob(R11, cin.fid, okr, "low/high stored as given; high < low refused" if okr else
+          "Compare.__init__ swaps or does not validate its thresholds", cin, cin.node)
+
     fb = prog.func('blocklib.cblocks:FuncBlock.calc_output')
     gb = ck.cfg(fb.fid, 'M0')
     rets = return_nodes(gb)
